@@ -19,7 +19,8 @@ EXPLANATION = (
     ' cmd-verdict: the verdict cached for the external auth command is ExitStatus::success() or constant false; the cache key is the pair or a struct whose equality compares every field.'
     ' NoClientAuth is returned by client_auth() only behind the None edge of a value that is None exactly when no client block is configured (decided on the desugared function).'
     ' ca-fallback: raw public trust anchors (webpki_roots) are installed only behind the edge on which the `ca` option is None.'
-    ' tls-session: no rustls ServerConfig gets a session cache or ticket key other than one built in place for it (a shared one lets a session from a listener without client authentication resume where a certificate is required).')
+    ' tls-session: no rustls ServerConfig gets a session cache or ticket key other than one built in place for it (a shared one lets a session from a listener without client authentication resume where a certificate is required).'
+    ' tls-session covers rustls ClientConfig as well: a ticket obtained through an insecure connector is not resumed by a verifying one.')
 RULE_TEXT = "instances = dominance queries and call sites listed above"
 TRUSTED = ["rustls certificate validation", "the external auth command's semantics"]
 NOT_DECIDED = ["rustls' validation itself", "timing of cache expiry"]
@@ -162,8 +163,9 @@ def rule_ca_fallback(chk, prog, rule="ca-fallback"):
 def rule_session_scope(chk, prog, rule="tls-session"):
     """A resumed TLS session skips the client-certificate exchange, so a session may only be resumed by the listener that established
     it.  rustls gives every ServerConfig its own session cache and ticket key; that stays true as long as nobody installs a shared one.
-    Sites = assignments to the `session_storage` / `ticketer` fields of a rustls ServerConfig anywhere in the crate (none expected;
-    the ServerConfig construction sites are the floor).  A cache shared between listeners lets a peer that handshook with a listener
+    The same holds on the connector side: a ticket obtained through a connector with `insecure: true` must not be resumed by one that
+    verifies against a CA.  Sites = assignments to the `session_storage` / `ticketer` fields of a rustls ServerConfig / ClientConfig
+    anywhere in the crate (none expected; the configuration construction sites are the floor).  A cache shared between listeners lets a peer that handshook with a listener
     without client authentication resume on one that requires a certificate."""
     n = 0
     built = 0
@@ -171,7 +173,7 @@ def rule_session_scope(chk, prog, rule="tls-session"):
         if f.crate != "redproxy_rs":
             continue
         for c in f.calls:
-            if re.search(r"rustls::server::server_conn::ServerConfig::builder$|ServerConfig::builder$", c.path or ""):
+            if re.search(r"(Server|Client)Config::builder$", c.path or ""):
                 built += 1
         for b in sorted(f.reachable):
             for st in f.stmts(b):
@@ -181,7 +183,7 @@ def rule_session_scope(chk, prog, rule="tls-session"):
                 if not flds:
                     continue
                 ty = f.local_ty_s(st["lhs"][0])
-                if "ServerConfig" not in ty and "server_conn" not in ty:
+                if not re.search(r"ServerConfig|server_conn|ClientConfig|client_conn", ty):
                     continue
                 where = "%s:%s" % (f.file, f.blocks[b].get("sp", {}).get("l", f.line))
                 # a store built right here for this one configuration is private to it; anything else (a static, a clone of a shared
@@ -189,7 +191,7 @@ def rule_session_scope(chk, prog, rule="tls-session"):
                 src = op_base(st["rv"].get("a")) if st["rv"]["k"] == "use" and st["rv"].get("a") else None
                 tr = f.trace(src, through_calls=[r"sync::Arc::<T>::new$", r"convert::(Into::into|From::from)$"]) if src is not None else []
                 calls_ = [info.path or "" for kk, info in tr if kk == "call"]
-                fresh = bool(calls_) and re.search(r"ServerSessionMemoryCache::new$|NoServerSessionStorage|Ticketer::new$", calls_[-1]) is not None \
+                fresh = bool(calls_) and re.search(r"(Server|Client)SessionMemoryCache::new$|No(Server|Client)SessionStorage|Ticketer::new$", calls_[-1]) is not None \
                     and not any(re.search(r"clone::Clone::clone$|OnceLock|Lazy|get_or_init", x) for x in calls_)
                 if fresh:
                     chk.instance(rule, where, "%s installs a %s built for this configuration alone" % (f.path, flds[0][2:]), True)
